@@ -7,5 +7,5 @@ export CARGO_NET_OFFLINE=true
 ./check build rel asan feat-sse feat-avx feat-none
 (cd $V/witness && cargo check --offline --target-dir $V/target/witness >/dev/null 2>&1)
 # Engine B (Miri) build
-(cd $V/sim && RUSTFLAGS="-C target-feature=+sse4.1,+avx,+fma,+avx2" MIRIFLAGS="-Zmiri-disable-isolation" cargo +nightly miri run --offline --target-dir $V/target/miri -- miri-case --prop C11 --from 0 --to 0 >/dev/null 2>&1)
+(cd $V/sim && RUSTFLAGS="-C target-feature=+sse4.1,+avx,+fma,+avx2" MIRIFLAGS="-Zmiri-disable-isolation" cargo +nightly miri run --offline --no-default-features --features avx,sse --target-dir $V/target/miri -- miri-case --prop C11 --from 0 --to 0 >/dev/null 2>&1)
 echo setup done
